@@ -217,6 +217,7 @@ class HDFOutput(Output):
                 else:
                     array.add_property(prop_name, type=type_, default=default,
                                        stride=stride)
+            array.align_particles()
             array.set_output_arrays(output_array)
             particles[str(name)] = array
         return particles
